@@ -283,6 +283,59 @@ func SoftNest(opts []cat.Opts, cb bool) []*cat.Catalog {
 	return out
 }
 
+// Reenter is the re-entrancy motif: c1 provides T0, c2 builds T1 from T0, c3 provides T2 and a
+// member of group T3@g; one function - the constructor c1, a decorator d1 of T0, or the invoked
+// function i1 - calls Invoke again while it runs, asking for its own product (directly or through
+// c2: the demand must be refused as a cycle, c1 must not be entered again), for something
+// unrelated (built and cached during the nested call), for something missing, optionally, or for
+// a group; from its own scope or an ancestor. With one fault the nested call itself fails.
+func Reenter(opts []cat.Opts, cb bool) []*cat.Catalog {
+	var out []*cat.Catalog
+	asks := [][]cat.Param{
+		{par("T0", "req", 0)},
+		{par("T1", "req", 0)},
+		{par("T2", "req", 0)},
+		{par("T4", "req", 0)},
+		{par("T1", "opt", 1), par("T2", "req", 1)},
+		{par("T3@g", "grp", 1), par("T2", "opt", 1)},
+	}
+	for _, p1 := range places() {
+		for _, p2 := range []Place{{"r", false}, {"a", false}, {"b", true}} {
+			for ai, ask := range asks {
+				for _, who := range []string{"c1", "d1", "i1", "c2"} {
+					for up := 0; up < 2; up++ {
+						c := &cat.Catalog{Parent: copyTree(chainTree), Fns: map[string]*cat.Fn{}}
+						c.Fns["c1"] = ctor(p1, nil, one("T0"))
+						c.Fns["c2"] = ctor(p2, []cat.Param{par("T0", "req", 0)}, one("T1"))
+						c.Fns["c3"] = ctor(Place{"r", false}, nil, one("T2"), cat.Result{Ks: []string{"T3@g"}, M: "grp"})
+						c.Fns["i1"] = inv(par("T0", "req", 0))
+						c.Fns["i2"] = inv(par("T1", "req", 0), par("T2", "opt", 1))
+						c.Fns["n1"] = inv(append([]cat.Param(nil), ask...)...)
+						if who == "d1" {
+							c.Fns["d1"] = dec(p1.Scope, []cat.Param{par("T0", "req", 0)}, one("T0"))
+						}
+						f := c.Fns[who]
+						s := "r"
+						if f.Kind != "inv" {
+							path := c.Path(f.Scope)
+							s = path[0]
+							if up == 1 {
+								s = path[len(path)-1]
+							}
+						} else if up == 1 {
+							continue
+						}
+						f.Nest = []cat.NestCall{{I: "n1", S: s}}
+						c.Note = fmt.Sprintf("reenter c1=%v c2=%v ask=%d who=%s at=%s", p1, p2, ai, who, s)
+						out = append(out, finish(c, opts, cb && false))
+					}
+				}
+			}
+		}
+	}
+	return out
+}
+
 // Digraphs is the cycle motif: n constructors, constructor i provides T<i> and has one
 // parameter per out-edge of a digraph on n nodes (self-loops included); every digraph with
 // index in [lo, hi) out of 2^(n*n); placements and edge kind chosen from the index and r.
